@@ -21,6 +21,13 @@ For each constructed address both sides report type, net, octets, length, the
 IP helper fields, the printed text and the (type, net, octets) of the re-parsed
 printed text.
 
+  app       : a real ApplicationIOController (stub service access point below it) sending IOCB requests to a
+              station written in every equivalent spelling of the pools, incl. explicit-route spellings
+              ('2:5@10.0.0.9', route= of the subclasses, route attached afterwards), answered (ack / error /
+              reject / abort) from the plain source (half of them the Address object the NSAP rig hands up);
+              the model's addrEqR / hashKeyR for (destination+route, source)
+  mixed     : an address and an int as keys of ONE table (all 256 one-octet stations x ints incl. the station
+              number itself, remote / IP / broadcast addresses); the model's addrEqInt and keyOfAddr vs keyOfInt
 Implementation-side oracle (independent of the model):
   * the denotation attached by the generator ("exp": type / net / octets, and
     for IP texts subnet / host / directed broadcast / port computed with the
@@ -35,6 +42,15 @@ Implementation-side oracle (independent of the model):
     (independent delivery/mapping reference), equals the typed address and its printed text both ways with
     equal hash and dict membership, passes the generic checks; all sightings of one station are equal, hash
     alike, print alike and find the same DeviceInfoCache record (also under the typed address);
+  * app: every spelling addresses the SAME transaction queue: one APDU downstream, one queue, the IOCB is
+    completed by the reply from the equal address with that very reply, the queue is released, the next request
+    goes out; two spellings of one station in flight + a request to another station: two queues (one per
+    station), served in order;
+  * mixed keys: {address: a, int: b} (both insertion orders) keeps two entries and each lookup its own value,
+    sets keep two members, no membership across kinds — also for int == station number; the real
+    DeviceInfoCache fed I-Ams whose device instances equal other devices' station numbers answers every lookup
+    by instance (0..255 + all instances) and by address (all 256 stations, every device's spelling and printed
+    text) like two separate reference maps, has_device_info likewise, acquire() counts on the right record;
   * pools: all members pairwise ==, equal hash, found in a dict keyed by any
     other member; members of different pools are !=; == is reflexive,
     symmetric and transitive over sampled triples.
@@ -50,16 +66,21 @@ RULE = ("all station numbers 0..255 (+256..300 and far values, refused) in 10 sp
         "x masks 0..32 (+33,34,99 refused) x ports {none,0,1,47807,47808,47809,47823,47824,65535,65536,70000}, "
         "expected values from the standard ipaddress module; octet strings of length 0..8 x 9 forms; tuples; "
         "every ordered pair inside pools of equivalent spellings + cross-pool pairs; near-miss mutations, random "
-        "strings and all strings up to length 5 (quick 4) over the 16-letter notation alphabet 0129*:./x'Xaf\\nA and blank, and all strings of length 6..7 (thorough ..8) over 01.:/*x. "
+        "strings and all strings up to length 5 (quick 4) over the 16-letter notation alphabet 0129*:./x'Xaf\\nA and blank, and all strings of length 6 (thorough ..8) over 01.:/*x. "
         "object reuse: all ordered pairs of 14 canonical values + seeded random 2..6-step histories over the pools' "
         "spellings (12% refused ones); stack: (rig A/B) x 15 source stations x 7 destinations x 4 link sources x arrival "
         "port + seeded random scenarios, B/IP: hosts x 6 ports x {unicast, broadcast, forwarded}. "
+        "app: every station pool x (its spellings + explicit-route variants, <=10 quick / <=40 thorough) x reply kind, "
+        "+ two-spellings-in-flight scenarios; mixed keys: 256 stations x 7 ints + 13 other addresses x 12 ints; "
+        "DeviceInfoCache: 3 fixed + 60 (thorough 1500) seeded device sets with instance/station clashes. "
         "distinct = distinct (stream, model branch label of constructor/recogniser/printer or error kind)")
 TRUSTED = ["lean/BacVerif/Model/Addr.lean is a hand transcription of Address.decode_address/__str__/__eq__/_tuple and "
            "the typed constructors; tied by the correspondence streams",
            "Python re, int(), bytes, struct, binascii; socket.inet_aton/inet_ntoa (modelled on digit-and-dot "
            "strings, compared on every IP case); the standard ipaddress module (oracle)"]
-ASSUMPTIONS = ["route suffixes '@...' are outside the claim and never generated",
+ASSUMPTIONS = ["route suffix NOTATIONS '@...' are outside the parsing claim (model: RAddr = address + route, built by the "
+               "harness from text@router / route=); they appear only as destinations of the app stream, never two "
+               "different explicit routes for one station (then __eq__ compares the routes)",
                "ASCII strings only (Python's \\d also accepts other Unicode decimal digits)",
                "netifaces is not installed (interface-name notation unreachable); the harness pins pdu.netifaces = None",
                "settings.route_aware is False (default); the only exception is the 3-case route_aware_reuse probe "
@@ -104,8 +125,21 @@ def raw_arg(spec):
     raise core.Infra("bad inner ctor " + k)
 
 
+def route_text(r):
+    """the text after '@' for a route spec (int / bytes / (host, port))"""
+    if r["k"] == "int":
+        return str(r["n"])
+    if r["k"] == "bytes":
+        return "0x" + r["x"]
+    if r["k"] == "tups":
+        return r["h"] if r["p"] == 47808 else "%s:%d" % (r["h"], r["p"])
+    raise core.Infra("bad route spec")
+
+
 def build(spec):
     from bacpypes import pdu
+    if spec.get("route") is not None:
+        return build_routed(spec)
     k = spec["k"]
     if k in ("str", "int", "bytes", "tups", "tupi"):
         return pdu.Address(raw_arg(spec))
@@ -128,6 +162,27 @@ def build(spec):
     if k == "null":
         return pdu.Address()
     raise core.Infra("bad ctor " + k)
+
+
+def build_routed(spec):
+    """destinations written WITH AN EXPLICIT ROUTE: 'text@router' or the route= argument of the subclasses"""
+    from bacpypes import pdu
+    r = spec["route"]
+    k = spec["k"]
+    if k == "str":
+        return pdu.Address(spec["s"] + "@" + route_text(r))
+    rt = pdu.Address(raw_arg(r))
+    if k == "LS":
+        return pdu.LocalStation(spec["n"], route=rt)
+    if k == "LSb":
+        return pdu.LocalStation(bytes.fromhex(spec["x"]), route=rt)
+    if k == "RS":
+        return pdu.RemoteStation(spec["net"], spec["n"], route=rt)
+    if k == "RSb":
+        return pdu.RemoteStation(spec["net"], bytes.fromhex(spec["x"]), route=rt)
+    a = build({kk: v for kk, v in spec.items() if kk != "route"})
+    a.addrRoute = rt
+    return a
 
 
 def key(a):
@@ -1249,6 +1304,354 @@ def run_stack(ctx, cases, bip_cases):
         ctx.sample({"stream": "stack", "case": c})
 
 
+# ---------------------------------------------------------------- transaction queues by destination (wave 5)
+
+def pump():
+    """run what the IOCB machinery deferred (next request of a queue), no sockets, no clock"""
+    import bacpypes.core as bc
+    n = 0
+    while bc.deferredFns and n < 1000:
+        fns, bc.deferredFns = bc.deferredFns, []
+        for fn, args, kwargs in fns:
+            fn(*args, **kwargs)
+            n += 1
+
+
+def _app_rig():
+    from bacpypes.comm import ServiceAccessPoint, bind
+    from bacpypes.app import ApplicationIOController
+
+    class StubSAP(ServiceAccessPoint):
+        def __init__(self):
+            ServiceAccessPoint.__init__(self)
+            self.sent = []
+
+        def sap_indication(self, apdu):
+            self.sent.append(apdu)
+
+        def sap_confirmation(self, apdu):
+            self.sent.append(apdu)
+    app, sap = ApplicationIOController(), StubSAP()
+    bind(app, sap)
+    return app, sap
+
+
+def _request(dest):
+    from bacpypes.apdu import ReadPropertyRequest
+    r = ReadPropertyRequest(objectIdentifier=("analogValue", 1), propertyIdentifier="presentValue")
+    r.pduDestination = dest
+    return r
+
+
+def _reply(kind, request, source):
+    from bacpypes.apdu import SimpleAckPDU, Error, RejectPDU, AbortPDU
+    if kind == "ack":
+        r = SimpleAckPDU(context=request)
+    elif kind == "error":
+        r = Error(errorClass="object", errorCode="unknownObject", context=request)
+    elif kind == "reject":
+        r = RejectPDU(reason=1, context=request)
+    else:
+        r = AbortPDU(reason=1, context=request)
+    r.pduSource = source
+    return r
+
+
+def stack_source(canon):
+    """the source Address object as the network layer hands it up for that station (rig A), else typed"""
+    ty, net, bs = canon
+    if ty == 4:
+        rig = _Rig("A")
+        got = rig.feed("A", {"on": None, "via": 1, "dst": "u", "dnet": None, "dadr": "", "snet": net, "sadr": bs.hex()})
+        if len(got) == 1:
+            return got[0].pduSource
+    if ty == 2 and len(bs) == 1:
+        rig = _Rig("A")
+        got = rig.feed("A", {"on": None, "via": bs[0], "dst": "u", "dnet": None, "dadr": "", "snet": None, "sadr": ""})
+        if len(got) == 1:
+            return got[0].pduSource
+    return None
+
+
+ROUTES = [{"k": "int", "n": 9}, {"k": "bytes", "x": "0a000009bac0"}, {"k": "tups", "h": "10.0.0.9", "p": 47808},
+          {"k": "tups", "h": "10.0.0.9", "p": 47809}]
+
+
+def routed_spellings(canon, sps, rng):
+    """the pool's spellings + the same destinations written with an explicit route"""
+    ty, net, bs = canon
+    out = []
+    for sp in sps:
+        if sp["k"] == "str" and not sp["s"].endswith("\n") and sp["s"].count(":") < 5 and not sp["s"].startswith("X'") \
+                and ":X'" not in sp["s"] and "/" not in sp["s"]:
+            out.append(dict(sp, route=rng.choice(ROUTES)))
+        elif sp["k"] in ("LS", "LSb", "RS", "RSb"):
+            out.append(dict(sp, route=rng.choice(ROUTES)))
+        elif sp["k"] in ("bytes", "tups", "net2") and rng.random() < 0.5:
+            out.append(dict(sp, route=rng.choice(ROUTES)))       # route attached to the object afterwards
+    return out
+
+
+def gen_app(ctx, rng, pools):
+    cases = []
+    stations = [(c, sps) for c, sps in pools if c[0] in (2, 4) and len(c[2]) >= 1]
+    for c, sps in stations:
+        allsp = sps + routed_spellings(c, sps, rng)
+        lim = 10 if ctx.quick else 40
+        picks = allsp if len(allsp) <= lim else rng.sample(allsp, lim)
+        # keep at least the routed ones of every kind
+        routed = [x for x in allsp if x.get("route")]
+        for x in routed[:6]:
+            if x not in picks:
+                picks.append(x)
+        for d in picks:
+            cases.append({"op": "app", "canon": [c[0], c[1], c[2].hex()], "dest": d, "src": rng.choice(sps),
+                          "reply": rng.choice(["ack", "ack", "error", "reject", "abort"]),
+                          "stack_src": rng.random() < 0.5})
+        # two spellings of one station in flight: one queue, served in order
+        for _ in range(3 if ctx.quick else 12):
+            d1 = rng.choice(allsp)
+            d2 = rng.choice(allsp)
+            if d1.get("route") and d2.get("route") and d1["route"] != d2["route"]:
+                # two DIFFERENT explicit routes: __eq__ compares routes when both sides have one (outside the claim)
+                d2 = dict(d2, route=d1["route"]) if rng.random() < 0.5 else strip_route(d2)
+            cases.append({"op": "app2", "canon": [c[0], c[1], c[2].hex()], "dest": [d1, d2],
+                          "src": [rng.choice(sps), rng.choice(sps)]})
+    return cases, stations
+
+
+def app_fail(ctx, case, what):
+    ctx.fail("app-queue", case, what)
+    return False
+
+
+def run_app_case(ctx, case, other, flat, impl_r):
+    """a confirmed request to `dest`, answered from the plain source: same queue/transaction entry"""
+    from bacpypes.iocb import IOCB
+    canon = (case["canon"][0], case["canon"][1], bytes.fromhex(case["canon"][2]))
+    app, sap = _app_rig()
+    if case["op"] == "app":
+        dest = build(case["dest"])
+        src = (stack_source(canon) if case.get("stack_src") else None) or build(case["src"])
+        flat.append({"op": "eqr", "a": strip_route(case["dest"]), "ar": case["dest"].get("route"),
+                     "b": case["src"], "br": None, "app": True})
+        impl_r.append({"r": "ok", "eq": bool(dest == src and src == dest), "hk": dest._tuple() == src._tuple()})
+        ctx.count("app", (case["dest"]["k"], case["dest"].get("route", {}).get("k"), case["reply"], canon[0], len(canon[2])))
+        if not (dest == src and src == dest and hash(dest) == hash(src)):
+            return app_fail(ctx, case, "destination %s and reply source %s are not equal / hash differently" % (dest, src))
+        req = _request(dest)
+        iocb = IOCB(req)
+        app.request_io(iocb); pump()
+        if len(sap.sent) != 1:
+            return app_fail(ctx, case, "request to %s: %d APDUs sent downstream" % (dest, len(sap.sent)))
+        if len(app.queue_by_address) != 1:
+            return app_fail(ctx, case, "%d destination queues after one request" % len(app.queue_by_address))
+        rep = _reply(case["reply"], req, src)
+        app.confirmation(rep); pump()
+        if not iocb.ioComplete.is_set():
+            return app_fail(ctx, case, "request to %s not completed by the %s from the equal address %s "
+                            "(transaction queue not found)" % (dest, case["reply"], src))
+        if (iocb.ioResponse if case["reply"] == "ack" else iocb.ioError) is not rep:
+            return app_fail(ctx, case, "wrong response on the IOCB")
+        if app.queue_by_address:
+            return app_fail(ctx, case, "queue for %s not released after the reply from %s" % (dest, src))
+        iocb2 = IOCB(_request(build(case["src"])))
+        app.request_io(iocb2); pump()
+        if len(sap.sent) != 2:
+            return app_fail(ctx, case, "next request to %s was not sent (queued behind the unanswered one)" % (src,))
+        return True
+    # app2: two spellings in flight + one request to another station
+    d = [build(x) for x in case["dest"]]
+    srcs = [build(x) for x in case["src"]]
+    ctx.count("app2", (case["dest"][0]["k"], case["dest"][1]["k"], bool(case["dest"][0].get("route")), bool(case["dest"][1].get("route"))))
+    reqs = [_request(x) for x in d] + [_request(other)]
+    iocbs = [IOCB(r) for r in reqs]
+    for i in iocbs:
+        app.request_io(i)
+    pump()
+    if len(app.queue_by_address) != 2:
+        return app_fail(ctx, case, "requests to %s and %s (one station) and to %s: %d destination queues, expected 2 "
+                        "(one per station)" % (d[0], d[1], other, len(app.queue_by_address)))
+    if len(sap.sent) != 2 or sap.sent[0] is not reqs[0] or sap.sent[1] is not reqs[2]:
+        return app_fail(ctx, case, "two requests to one station must be serialised: %d sent downstream" % len(sap.sent))
+    app.confirmation(_reply("ack", reqs[0], srcs[0])); pump()
+    if not iocbs[0].ioComplete.is_set() or iocbs[1].ioComplete.is_set() or len(sap.sent) != 3 or sap.sent[2] is not reqs[1]:
+        return app_fail(ctx, case, "ack from %s: first request to %s not completed / second (to %s) not sent next" % (
+            srcs[0], d[0], d[1]))
+    app.confirmation(_reply("ack", reqs[1], srcs[1])); pump()
+    if not iocbs[1].ioComplete.is_set() or iocbs[2].ioComplete.is_set() or len(app.queue_by_address) != 1:
+        return app_fail(ctx, case, "ack from %s: second request (to %s) not completed or queue not released" % (srcs[1], d[1]))
+    app.confirmation(_reply("ack", reqs[2], other)); pump()
+    if not iocbs[2].ioComplete.is_set() or app.queue_by_address:
+        return app_fail(ctx, case, "request to the other station not completed")
+    return True
+
+
+def strip_route(spec):
+    return {k: v for k, v in spec.items() if k != "route"}
+
+
+def run_app(ctx, cases, pools):
+    setup()
+    import logging
+    logging.getLogger("bacpypes").setLevel(logging.ERROR)      # 'route provided but not route aware' warnings
+    flat, impl_r = [], []
+    for case in cases:
+        canon = case["canon"]
+        other = build({"k": "RSb", "net": 4321, "x": "63"}) if canon[:2] != [4, 4321] else build({"k": "LS", "n": 99})
+        try:
+            run_app_case(ctx, case, other, flat, impl_r)
+        except Exception as e:
+            ctx.fail("app-queue", case, "raised %s: %s" % (type(e).__name__, e))
+        finally:
+            import bacpypes.core as bc
+            bc.deferredFns = []
+    if ctx.model_ok and flat:
+        b = core.Driver("drv_c18").ask([{k: v for k, v in c.items() if k != "app"} for c in flat])
+        ctx.compare_stream("app", flat, impl_r, b, sig=lambda c, m: ("app", c["a"]["k"], (c.get("ar") or {}).get("k"), m.get("eq")))
+    for c in cases[:2]:
+        ctx.sample({"stream": "app", "case": c})
+
+
+# ---------------------------------------------------------------- ints and addresses in one table (wave 5)
+
+def mixed_pair(ctx, case, a, m):
+    """{address: 'a', m: 'b'} keeps two entries, whatever the insertion order; sets too"""
+    bad = []
+    for d in ({a: "a", m: "b"}, {m: "b", a: "a"}):
+        if len(d) != 2 or d.get(a) != "a" or d.get(m) != "b":
+            bad.append("dict %r" % ({str(k) if not isinstance(k, int) else k: v for k, v in d.items()},))
+            break
+    if len({a, m}) != 2 or (m in {a: 1}) or (a in {m: 1}) or (m in {a}) or (a in {m}):
+        bad.append("membership across kinds")
+    if bad:
+        ctx.fail("mixed-keys", case, "the address %s and the int %d are one key of a table that holds both: %s" % (
+            a, m, "; ".join(bad)), n=m)
+        return False
+    return True
+
+
+def gen_mixed(ctx, rng):
+    cases = []
+    for n in range(256):
+        sps = [{"k": "int", "n": n}, S(str(n)), {"k": "LS", "n": n}, {"k": "bytes", "x": "%02x" % n}, S("0x%02x" % n)]
+        ms = {n, (n + 1) % 256, 0, 255, rng.randrange(256), 256 + n, 4194302}
+        for m in sorted(ms):
+            cases.append({"op": "mixed", "a": sps[(n + m) % len(sps)], "n": m})
+    others = [{"k": "RS", "net": 5, "n": 5}, {"k": "RSb", "net": 0, "x": "05"}, S("5:5"), {"k": "LSb", "x": "0005"},
+              {"k": "LSb", "x": "0500"}, {"k": "tups", "h": "0.0.0.5", "p": 5}, {"k": "tupi", "h": 5, "p": 47808},
+              S("0.0.0.5"), {"k": "RB", "net": 5}, {"k": "LB"}, {"k": "GB"}, {"k": "null"}, {"k": "bytes", "x": "000000000005"}]
+    for sp in others:
+        for m in (0, 1, 2, 3, 4, 5, 47808, 255, 256, -1, 83886085, 327685):
+            cases.append({"op": "mixed", "a": sp, "n": m})
+    return cases
+
+
+def run_mixed(ctx, cases):
+    setup()
+    impl_r = []
+    for case in cases:
+        try:
+            a = build(case["a"])
+        except Exception as e:
+            impl_r.append({"r": "err", "k": ek(e)})
+            continue
+        m = case["n"]
+        try:
+            eq = bool(a == m)
+        except Exception as e:
+            eq = {"err": ek(e)}
+        same = not mixed_pair(ctx, case, a, m)
+        impl_r.append({"r": "ok", "eq": eq, "same": same})
+    if ctx.model_ok:
+        b = core.Driver("drv_c18").ask(cases)
+        ctx.compare_stream("mixed", cases, impl_r, b,
+                           sig=lambda c, m: ("mixed", c["a"]["k"], str(m.get("eq")), 0 <= c["n"] < 256))
+    else:
+        ctx.count("mixed", n=len(cases))
+    for c in cases[:2]:
+        ctx.sample({"stream": "mixed", "case": c})
+
+
+def gen_devcache(ctx, rng):
+    """devices (instance, address) whose instance numbers hit other devices' station numbers"""
+    cases = [{"op": "devcache", "devs": [[5, {"k": "int", "n": 12}], [9, {"k": "LS", "n": 5}]]},
+             {"op": "devcache", "devs": [[9, {"k": "LS", "n": 5}], [5, {"k": "int", "n": 12}]]},
+             {"op": "devcache", "devs": [[0, S("255")], [255, S("0")], [7, {"k": "RS", "net": 7, "n": 7}], [1, S("0.0.0.1")]]}]
+    n = 60 if ctx.quick else 1500
+    for _ in range(n):
+        k = rng.randrange(2, 7)
+        stations = rng.sample(range(256), k)
+        insts = []
+        for i in range(k):
+            r = rng.random()
+            cand = stations[(i + 1) % k] if r < 0.6 else stations[i] if r < 0.7 else rng.choice([rng.randrange(256), 1000 + i, 4194302 - i])
+            while cand in insts:
+                cand = 2000 + rng.randrange(100000)
+            insts.append(cand)
+        devs = []
+        for i in range(k):
+            st = stations[i]
+            r = rng.random()
+            sp = rng.choice([{"k": "int", "n": st}, S(str(st)), {"k": "LS", "n": st}, {"k": "bytes", "x": "%02x" % st},
+                             S("X'%02x'" % st)]) if r < 0.75 else \
+                {"k": "RS", "net": 1 + st % 3, "n": st} if r < 0.9 else {"k": "tups", "h": "10.0.0.%d" % st, "p": 47808}
+            devs.append([insts[i], sp])
+        cases.append({"op": "devcache", "devs": devs, "repeat": rng.random() < 0.3})
+    return cases
+
+
+def run_devcache(ctx, cases):
+    """the real DeviceInfoCache (int and Address keys in one dict) against two separate reference maps"""
+    setup()
+    from bacpypes.app import DeviceInfoCache
+    from bacpypes.apdu import IAmRequest
+    from bacpypes import pdu
+    for case in cases:
+        cache = DeviceInfoCache()
+        by_inst, by_addr = {}, {}
+        seq = case["devs"] + (case["devs"][:1] if case.get("repeat") else [])
+        try:
+            for inst, sp in seq:
+                src = build(sp)
+                apdu = IAmRequest(iAmDeviceIdentifier=("device", inst), maxAPDULengthAccepted=1024,
+                                  segmentationSupported="noSegmentation", vendorID=inst % 1000 + 1)
+                apdu.pduSource = src
+                cache.iam_device_info(apdu)
+                by_inst[inst] = by_addr[tuple(key(src))] = (inst, key(src))
+            ctx.count("devcache", (len(case["devs"]), any(i in [x[1].get("n") for x in case["devs"]] for i, _ in case["devs"])))
+
+            def desc(info):
+                return None if info is None else (info.deviceIdentifier, key(info.address))
+            bad = None
+            probes_i = sorted(set(list(by_inst) + [x for x in range(256)]))
+            for m in probes_i:
+                if desc(cache.get_device_info(m)) != by_inst.get(m) or cache.has_device_info(m) != (m in by_inst):
+                    bad = "lookup by device instance %d gives %r, expected %r" % (m, desc(cache.get_device_info(m)), by_inst.get(m))
+                    break
+            if not bad:
+                addrs = [pdu.Address(n) for n in range(256)] + [pdu.LocalStation(n) for n in range(0, 256, 7)] + \
+                        [build(sp) for _, sp in case["devs"]] + [pdu.Address(str(build(sp))) for _, sp in case["devs"]]
+                for a in addrs:
+                    want = by_addr.get(tuple(key(a)))
+                    if desc(cache.get_device_info(a)) != want or cache.has_device_info(a) != (want is not None):
+                        bad = "lookup by address %s gives %r (has: %r), expected %r" % (
+                            a, desc(cache.get_device_info(a)), cache.has_device_info(a), want)
+                        break
+            if not bad:
+                inst, sp = case["devs"][0]
+                info = cache.acquire(build(sp))
+                if desc(info) != by_inst[inst] or getattr(cache.get_device_info(inst), "_ref_count", None) != 1 or any(
+                        getattr(cache.get_device_info(i), "_ref_count", 0) != 0 for i in by_inst if i != inst):
+                    bad = "acquire(%s) counted on the wrong record" % (build(sp),)
+            if bad:
+                ctx.fail("mixed-keys", case, "DeviceInfoCache: " + bad)
+        except Exception as e:
+            ctx.fail("mixed-keys", case, "DeviceInfoCache raised %s: %s" % (type(e).__name__, e))
+    for c in cases[:1]:
+        ctx.sample({"stream": "devcache", "case": c})
+
+
 # ---------------------------------------------------------------- signatures
 
 def sig(case, m):
@@ -1341,9 +1744,12 @@ def run(ctx):
     rng = ctx.sub_rng("c18")
     corpus = load_corpus()
     if corpus:
-        run_cases(ctx, "corpus", [c for c in corpus if c["op"] not in ("reuse", "stack", "bip")])
+        run_cases(ctx, "corpus", [c for c in corpus if c["op"] in ("mk", "eq", "pack", "unpack")])
         run_reuse(ctx, [c for c in corpus if c["op"] == "reuse"])
         run_stack(ctx, [c for c in corpus if c["op"] == "stack"], [c for c in corpus if c["op"] == "bip"])
+        run_app(ctx, [c for c in corpus if c["op"] in ("app", "app2")], None)
+        run_mixed(ctx, [c for c in corpus if c["op"] == "mixed"])
+        run_devcache(ctx, [c for c in corpus if c["op"] == "devcache"])
     run_cases(ctx, "stations", gen_stations())
     run_cases(ctx, "nets", gen_nets())
     run_cases(ctx, "ipv4", gen_ipv4(ctx, rng))
@@ -1356,6 +1762,12 @@ def run(ctx):
     route_aware_reuse(ctx)
     srng = ctx.sub_rng("c18-stack")
     run_stack(ctx, gen_stack(ctx, srng), gen_bip(ctx, srng))
+    arng = ctx.sub_rng("c18-app")
+    app_cases, _st = gen_app(ctx, arng, pools)
+    run_app(ctx, app_cases, pools)
+    mrng = ctx.sub_rng("c18-mixed")
+    run_mixed(ctx, gen_mixed(ctx, mrng))
+    run_devcache(ctx, gen_devcache(ctx, mrng))
     run_cases(ctx, "malformed", gen_malformed(ctx, rng))
     specs = []
     step = 40000
@@ -1364,13 +1776,13 @@ def run(ctx):
         total = na ** length
         specs += [("n", length, lo, min(lo + step, total)) for lo in range(0, total, step)]
     ni = len(set(SHORT_IP))
-    for length in ([6, 7] if ctx.quick else [6, 7, 8]):
+    for length in ([6] if ctx.quick else [6, 7, 8]):
         total = ni ** length
         specs += [("ip", length, lo, min(lo + step, total)) for lo in range(0, total, step)]
     core.run_shards(ctx, "harness.c18", "shard_short", specs)
     ctx.extra["exhaustive_short_strings"] = {
         "alphabet": "".join(sorted(set(SHORT))), "max_length": 4 if ctx.quick else 5,
-        "ip_alphabet": SHORT_IP, "ip_lengths": [6, 7] if ctx.quick else [6, 7, 8]}
+        "ip_alphabet": SHORT_IP, "ip_lengths": [6] if ctx.quick else [6, 7, 8]}
 
 
 def search(ctx):
@@ -1402,6 +1814,15 @@ def replay(ctx, payload):
         return
     if case.get("op") == "bip":
         run_stack(ctx, [], [case])
+        return
+    if case.get("op") in ("app", "app2"):
+        run_app(ctx, [case], None)
+        return
+    if case.get("op") == "mixed":
+        run_mixed(ctx, [case])
+        return
+    if case.get("op") == "devcache":
+        run_devcache(ctx, [case])
         return
     if case.get("op") == "route-reuse":
         route_aware_reuse(ctx)
